@@ -251,7 +251,9 @@ def run_config(cfg):
                                     post=cfg.get("post"),
                                     fault=bool(cfg.get("fault")))
         out["fits"].append(rec)
-        if cfg.get("pair") and not rec["raised"] and cfg["k"] != 1:
+        # (pairs are built from plain fits only: no operation in between)
+        if cfg.get("pair") and not rec["raised"] and cfg["k"] != 1 \
+                and not cfg.get("post"):
             cfg1 = dict(cfg, k=1.0)
             idnt1 = make_fit_curve(cfg1)
             kw1 = dict(kw, gcf_k=1.0,
